@@ -1,5 +1,6 @@
 """C10 -- eliminating Dirichlet dofs is exact for any index set (structural clauses)."""
 import ast
+import copy
 
 from sa.program import src, own_nodes, call_name, parent, kwarg, AnchorMissing
 from sa import guards
@@ -302,7 +303,7 @@ def r10_4(ctx):
                    'first two basis functions at the lower end, last two at the upper end')
 
 
-def r10_5(ctx):
+def _r10_5_textual(ctx):       # superseded by r10_5 below (kept for reference, not run)
     cls = ctx.prog.cls(A + '.RestrictedLinearSystem')
     want = {
         'restrict': 'self.R_free.dot(u)',
@@ -330,6 +331,78 @@ def r10_5(ctx):
     ctx.decide('R10.5', init.qual, src(b) if b else 'self.b', ok or None, b or init.node, 'right-hand side lifted by the prescribed values: b - A u_D on the kept rows')
     a = d.get('self.A')
     ctx.decide('R10.5', init.qual, src(a) if a else 'self.A', (a is not None and src(a.value) == 'self.restrict_matrix(A)') or None, a or init.node)
+
+
+def r10_5(ctx):
+    cls = ctx.prog.cls(A + '.RestrictedLinearSystem')
+    want = {
+        'restrict': 'self.R_free.dot(u)',
+        'restrict_rhs': 'self.R_free_v.dot(f)',
+        'extend': 'self.R_free.T.dot(u)',
+        'complete': 'self.R_free.T.dot(u) + self.R_elim.T.dot(self.values)',
+        'restrict_matrix': 'self.R_free_v.dot(B).dot(self.R_free.T)',
+    }
+    why = {
+        'restrict': 'unknowns are selected by the free dofs (columns)',
+        'restrict_rhs': 'equations are selected by the kept rows R_free_v -- the same rows restrict_matrix keeps; with elim_rows these are not the free dofs',
+        'extend': 'transpose of restrict',
+        'complete': 'extension by zero plus the prescribed values on the eliminated dofs',
+        'restrict_matrix': 'rows: R_free_v, columns: R_free',
+    }
+    single = {}
+    for k in want:
+        m = cls.methods.get(k)
+        if m is None:
+            raise AnchorMissing('R10.5: RestrictedLinearSystem.%s' % k)
+        rets = [r for r in guards.returns_of(m.node) if r.value is not None]
+        params = [a.arg for a in m.node.args.args][1:]
+        if len(rets) == 1 and len(params) == 1:
+            single[k] = (params[0], rets[0].value)
+
+    def inline(e, depth=0):
+        """replace self.<m>(arg) by the body of the single-return method m (one parameter), up to depth 3"""
+        class T(ast.NodeTransformer):
+            def visit_Call(self, node):
+                self.generic_visit(node)
+                f = node.func
+                if isinstance(f, ast.Attribute) and isinstance(f.value, ast.Name) and f.value.id == 'self' and f.attr in single \
+                        and len(node.args) == 1 and not node.keywords and depth < 3:
+                    par, body = single[f.attr]
+                    arg = node.args[0]
+
+                    class S(ast.NodeTransformer):
+                        def visit_Name(self, n):
+                            return copy.deepcopy(arg) if n.id == par else n
+                    return inline(S().visit(copy.deepcopy(body)), depth + 1)
+                return node
+        return ast.fix_missing_locations(T().visit(copy.deepcopy(e)))
+    for k, w in want.items():
+        m = cls.methods[k]
+        rets = [r for r in guards.returns_of(m.node) if r.value is not None]
+        if not rets:
+            ctx.undecided('R10.5', m.qual, 'return', m.node, 'no return value')
+            continue
+        ctx.expect('R10.5', m.qual, inline(rets[-1].value), w, rets[-1], why[k], label='%s returns %s' % (k, w))
+    init = cls.methods['__init__']
+    ctx.expect_assign('R10.5', init, 'self.R_free', 'I[mask]', 'free and eliminated dofs partition all dofs')
+    ctx.expect_assign('R10.5', init, 'self.R_elim', 'I[np.logical_not(mask)]', 'free and eliminated dofs partition all dofs')
+    ctx.expect_assign('R10.5', init, 'self.R_free_v', 'I[maskv]', 'kept and eliminated rows partition all rows',
+                      which=lambda s: guards.has_literal(guards.path_conditions(s), 'elim_rows is not None', True))
+    ctx.expect_assign('R10.5', init, 'self.R_elim_v', 'I[np.logical_not(maskv)]', 'kept and eliminated rows partition all rows',
+                      which=lambda s: guards.has_literal(guards.path_conditions(s), 'elim_rows is not None', True))
+    ctx.expect_assign('R10.5', init, 'self.R_free_v', 'self.R_free', 'without elim_rows the rows are the free dofs',
+                      which=lambda s: not guards.has_literal(guards.path_conditions(s), 'elim_rows is not None', True), label='default rows: R_free_v = R_free')
+    ctx.expect_assign('R10.5', init, 'self.R_elim_v', 'self.R_elim', 'without elim_rows the rows are the free dofs',
+                      which=lambda s: not guards.has_literal(guards.path_conditions(s), 'elim_rows is not None', True), label='default rows: R_elim_v = R_elim')
+    ctx.expect_assign('R10.5', init, 'mask', 'np.ones(A.shape[1], dtype=bool)', 'one flag per column (dof)')
+    ctx.expect_assign('R10.5', init, 'maskv', 'np.ones(A.shape[0], dtype=bool)', 'one flag per row (equation)')
+    mk = [s for s in own_nodes(init.node) if isinstance(s, ast.Assign) and src(s.targets[0]).startswith('mask[')]
+    ok = bool(mk) and src(mk[0]).replace(' ', '') in ('mask[list(indices)]=False', 'mask[indices]=False')
+    ctx.decide('R10.5', init.qual, src(mk[0]) if mk else 'mask', ok or None, mk[0] if mk else init.node)
+    ctx.expect_assign('R10.5', init, 'maskv[elim_rows]', 'False', 'eliminated rows are cleared in the row mask')
+    ctx.expect_assign('R10.5', init, 'self.b', 'self.restrict_rhs(b - A.dot(self.R_elim.T.dot(values)))',
+                      'right-hand side lifted by the prescribed values: b - A u_D on the kept rows')
+    ctx.expect_assign('R10.5', init, 'self.A', 'self.restrict_matrix(A)', 'restricted matrix')
 
 
 def run(ctx):
